@@ -3,9 +3,11 @@
 package group
 
 import (
+	"context"
 	"net"
 	"strconv"
 
+	"github.com/fatedier/frp/pkg/util/vhost"
 	"github.com/fatedier/frp/server/ports"
 	"github.com/fatedier/frp/verif"
 )
@@ -160,6 +162,236 @@ func verif_TCPGroupCtl_RemoveGroup(tgc *TCPGroupCtl, group string, q string) {
 func verif_TCPGroup_worker(tg *TCPGroup) {
 	verif.ResetEvents()
 	tg.worker()
+	if verif.Recovered() {
+		verif.Ensures(verif.CalledWith("net.Conn).Close", 0, verif.Ret[net.Conn]("Listener).Accept", 0)), "failed_handoff_closes_connection")
+	}
+}
+
+// ---------------------------------------------------------------- C13: http groups
+
+//verif:invariant HTTPGroupController mu
+func (ctl *HTTPGroupController) verifInvGroups(name string) bool {
+	g, ok := ctl.groups[name]
+	return ctl.groups != nil && (!ok || (g != nil && g.ctl == ctl))
+}
+
+// Monitor invariant of an http group: the member table exists; a dead group has no members.
+//
+//verif:invariant HTTPGroup mu
+func (g *HTTPGroup) verifInvMembers() bool {
+	return g.createFuncs != nil && (!g.closed || len(g.createFuncs) == 0)
+}
+
+//verif:contract ~/server/group.NewHTTPGroup
+//verif:props C13
+func verif_NewHTTPGroup(ctl *HTTPGroupController) {
+	g := NewHTTPGroup(ctl)
+	verif.Ensures(g != nil && g.verifInvMembers() && g.ctl == ctl && !g.closed && len(g.createFuncs) == 0, "establishes_invariant")
+}
+
+// Register: the first member registers the group's route (exactly the member's
+// route triple); later members join only with the same group name, route triple
+// and key; a refused join leaves the group unchanged; a dead group refuses.
+//
+//verif:contract (*~/server/group.HTTPGroup).Register
+//verif:props C13 C10 C06
+func verif_HTTPGroup_Register(g *HTTPGroup, proxyName, group, groupKey string, routeConfig vhost.RouteConfig) {
+	n0 := len(g.createFuncs)
+	dead := g.closed
+	g0, k0, d0, l0, u0 := g.group, g.groupKey, g.domain, g.location, g.routeByHTTPUser
+	had := verif.Has(g.createFuncs, proxyName)
+	verif.ResetEvents()
+	err := g.Register(proxyName, group, groupKey, routeConfig)
+	const evAdd = "Routers).Add"
+	if dead {
+		verif.Ensures(err == errGroupClosed && !verif.Called(evAdd) && len(g.createFuncs) == n0, "dead_group_refuses_join")
+	} else if n0 == 0 {
+		if err == nil {
+			verif.Ensures(verif.CallCount(evAdd) == 1 && verif.CalledWith(evAdd, 1, routeConfig.Domain) && verif.CalledWith(evAdd, 2, routeConfig.Location) && verif.CalledWith(evAdd, 3, routeConfig.RouteByHTTPUser), "first_member_registers_the_route")
+			verif.Ensures(g.group == group && g.groupKey == groupKey && g.domain == routeConfig.Domain && g.location == routeConfig.Location && g.routeByHTTPUser == routeConfig.RouteByHTTPUser, "first_member_sets_params")
+			verif.Ensures(verif.Has(g.createFuncs, proxyName) && len(g.createFuncs) == 1, "first_member_joined")
+		}
+	} else {
+		verif.Ensures(!verif.Called(evAdd), "join_registers_no_route")
+		if err == nil {
+			verif.Ensures(g0 == group && d0 == routeConfig.Domain && l0 == routeConfig.Location && u0 == routeConfig.RouteByHTTPUser && k0 == groupKey, "join_only_with_matching_params_and_key")
+			verif.Ensures(!had && verif.Has(g.createFuncs, proxyName) && len(g.createFuncs) == n0+1, "join_adds_this_member")
+		} else {
+			verif.Ensures(len(g.createFuncs) == n0 && verif.Has(g.createFuncs, proxyName) == had, "refused_join_leaves_members")
+		}
+		verif.Ensures(g.group == g0 && g.groupKey == k0 && g.domain == d0 && g.location == l0 && g.routeByHTTPUser == u0, "join_leaves_params")
+	}
+}
+
+// UnRegister: the last leave removes the group's route (exactly the group's
+// triple), once, and marks the group dead; other leaves remove no route.
+//
+//verif:contract (*~/server/group.HTTPGroup).UnRegister
+//verif:props C13 C10 C06
+func verif_HTTPGroup_UnRegister(g *HTTPGroup, proxyName string) {
+	dead := g.closed
+	d0, l0, u0 := g.domain, g.location, g.routeByHTTPUser
+	verif.ResetEvents()
+	isEmpty := g.UnRegister(proxyName)
+	const evDel = "Routers).Del"
+	verif.Ensures(!verif.Has(g.createFuncs, proxyName), "member_removed")
+	if isEmpty {
+		verif.Ensures(!dead && g.closed && len(g.createFuncs) == 0, "last_leave_kills_group")
+		verif.Ensures(verif.CallCount(evDel) == 1 && verif.CalledWith(evDel, 1, d0) && verif.CalledWith(evDel, 2, l0) && verif.CalledWith(evDel, 3, u0), "last_leave_removes_group_route_once")
+	} else {
+		verif.Ensures(!verif.Called(evDel) && g.closed == dead, "other_leaves_keep_route")
+	}
+}
+
+// The controller looks the group up (creating it when absent), lets the group
+// decide, and retries on a fresh group when the one it found has died meanwhile.
+//
+//verif:contract (*~/server/group.HTTPGroupController).Register
+//verif:props C13 C10
+func verif_HTTPGroupController_Register(ctl *HTTPGroupController, proxyName, group, groupKey string, routeConfig vhost.RouteConfig) {
+	verif.ResetEvents()
+	err := ctl.Register(proxyName, group, groupKey, routeConfig)
+	const evReg = "HTTPGroup).Register"
+	verif.Ensures(verif.CalledInIter(evReg) && err == verif.IterRet[error](evReg, 0), "result_is_the_groups")
+	verif.Ensures(err != errGroupClosed, "never_reports_a_dead_group")
+	verif.Ensures(verif.IterArg[string](evReg, 1) == proxyName && verif.IterArg[string](evReg, 2) == group && verif.IterArg[string](evReg, 3) == groupKey && verif.Same(verif.IterArg[vhost.RouteConfig](evReg, 4), routeConfig), "passes_request_unchanged")
+}
+
+//verif:contract (*~/server/group.HTTPGroupController).UnRegister
+//verif:props C13 C10
+func verif_HTTPGroupController_UnRegister(ctl *HTTPGroupController, proxyName, group string, rc vhost.RouteConfig, q string) {
+	tab0 := verif.Snap(ctl.groups)
+	verif.ResetEvents()
+	ctl.UnRegister(proxyName, group, rc)
+	const evUn = "HTTPGroup).UnRegister"
+	if verif.Has(tab0, group) {
+		verif.Ensures(verif.CallCount(evUn) == 1 && verif.CalledWith(evUn, 0, tab0[group]) && verif.CalledWith(evUn, 1, proxyName), "member_leaves_its_group")
+		verif.Ensures(verif.Has(ctl.groups, group) == !verif.RetBool(evUn, 0), "emptied_group_is_removed")
+	} else {
+		verif.Ensures(!verif.Called(evUn), "unknown_group_ignored")
+	}
+	if q != group {
+		verif.Ensures(verif.Has(ctl.groups, q) == verif.Has(tab0, q) && ctl.groups[q] == tab0[q], "other_groups_untouched")
+	}
+}
+
+// Round robin: the connection function chosen belongs to a current member; no
+// index computed from the counter can be out of range for a non-empty list.
+//
+//verif:contract (*~/server/group.HTTPGroup).chooseEndpoint
+//verif:props C13 C16
+func verif_HTTPGroup_chooseEndpoint(g *HTTPGroup) {
+	name, err := g.chooseEndpoint()
+	verif.Ensures((err == nil) == (name != ""), "endpoint_or_error")
+}
+
+// ---------------------------------------------------------------- C13: tcpmux groups
+
+//verif:invariant TCPMuxGroupCtl mu
+func (tmgc *TCPMuxGroupCtl) verifInvGroups(name string) bool {
+	g, ok := tmgc.groups[name]
+	return tmgc.groups != nil && (!ok || (g != nil && g.ctl == tmgc))
+}
+
+//verif:invariant TCPMuxGroup mu
+func (tmg *TCPMuxGroup) verifInvLive() bool {
+	return (tmg.closed || (tmg.acceptCh != nil && !verif.Closed(tmg.acceptCh))) &&
+		(len(tmg.lns) == 0 || (!tmg.closed && tmg.tcpMuxLn != nil))
+}
+
+//verif:contract ~/server/group.NewTCPMuxGroup
+//verif:props C13
+func verif_NewTCPMuxGroup(ctl *TCPMuxGroupCtl) {
+	tmg := NewTCPMuxGroup(ctl)
+	verif.Ensures(tmg != nil && tmg.verifInvLive() && tmg.ctl == ctl && len(tmg.lns) == 0 && !tmg.closed, "establishes_invariant")
+}
+
+// HTTPConnectListen: the first member registers the group's route with the
+// member's host, user and credentials; later members join only with the same
+// group name, host, route user, credentials and key; a refused join leaves the
+// group unchanged; a dead group refuses.
+//
+//verif:contract (*~/server/group.TCPMuxGroup).HTTPConnectListen
+//verif:props C13 C10 C07
+func verif_TCPMuxGroup_HTTPConnectListen(tmg *TCPMuxGroup, ctx context.Context, group, groupKey string, routeConfig vhost.RouteConfig) {
+	n0 := len(tmg.lns)
+	dead := tmg.closed
+	g0, k0, d0, r0, u0, p0 := tmg.group, tmg.groupKey, tmg.domain, tmg.routeByHTTPUser, tmg.username, tmg.password
+	verif.ResetEvents()
+	ln, err := tmg.HTTPConnectListen(ctx, group, groupKey, routeConfig)
+	const evListen = "vhost.Muxer).Listen"
+	if dead {
+		verif.Ensures(err == errGroupClosed && ln == nil && len(tmg.lns) == n0 && !verif.Called(evListen), "dead_group_refuses_join")
+	} else if n0 == 0 {
+		if err == nil {
+			rc := verif.NthArg[*vhost.RouteConfig](evListen, 0, 2)
+			verif.Ensures(verif.CallCount(evListen) == 1 && rc.Domain == routeConfig.Domain && rc.RouteByHTTPUser == routeConfig.RouteByHTTPUser && rc.Username == routeConfig.Username && rc.Password == routeConfig.Password, "first_member_registers_its_route_and_credentials")
+			verif.Ensures(tmg.group == group && tmg.groupKey == groupKey && tmg.domain == routeConfig.Domain && tmg.routeByHTTPUser == routeConfig.RouteByHTTPUser && tmg.username == routeConfig.Username && tmg.password == routeConfig.Password, "first_member_sets_params")
+			verif.Ensures(ln != nil && len(tmg.lns) == 1, "first_member_joined")
+		} else {
+			verif.Ensures(len(tmg.lns) == 0, "first_error_no_member")
+		}
+	} else {
+		verif.Ensures(!verif.Called(evListen), "join_registers_no_route")
+		if err == nil {
+			verif.Ensures(g0 == group && d0 == routeConfig.Domain && r0 == routeConfig.RouteByHTTPUser && u0 == routeConfig.Username && p0 == routeConfig.Password && k0 == groupKey, "join_only_with_matching_params_credentials_and_key")
+			verif.Ensures(len(tmg.lns) == n0+1, "join_adds_one_member")
+		} else {
+			verif.Ensures(len(tmg.lns) == n0, "refused_join_leaves_members")
+		}
+		verif.Ensures(tmg.group == g0 && tmg.groupKey == k0 && tmg.domain == d0 && tmg.routeByHTTPUser == r0 && tmg.username == u0 && tmg.password == p0, "join_leaves_params")
+	}
+}
+
+//verif:contract (*~/server/group.TCPMuxGroup).CloseListener
+//verif:props C13 C10 C16
+func verif_TCPMuxGroup_CloseListener(tmg *TCPMuxGroup, ln *TCPMuxGroupListener) {
+	n0 := len(tmg.lns)
+	dead := tmg.closed
+	ch, name := tmg.acceptCh, tmg.group
+	verif.ResetEvents()
+	tmg.CloseListener(ln)
+	verif.Ensures(len(tmg.lns) == n0 || len(tmg.lns) == n0-1, "removes_at_most_one_member")
+	if len(tmg.lns) == 0 && !dead {
+		verif.Ensures(tmg.closed && verif.Closed(ch), "last_leave_closes_channel")
+		verif.Ensures(verif.CalledWith("TCPMuxGroupCtl).RemoveGroup", 1, name), "last_leave_removes_group")
+		verif.Ensures(verif.Called("Listener).Close"), "last_leave_closes_listener")
+	} else {
+		verif.Ensures(!verif.Called("TCPMuxGroupCtl).RemoveGroup") && tmg.closed == dead, "other_leaves_keep_state")
+	}
+}
+
+//verif:contract (*~/server/group.TCPMuxGroupCtl).RemoveGroup
+//verif:props C13 C10
+func verif_TCPMuxGroupCtl_RemoveGroup(tmgc *TCPMuxGroupCtl, group string, q string) {
+	tab0 := verif.Snap(tmgc.groups)
+	tmgc.RemoveGroup(group)
+	verif.Ensures(!verif.Has(tmgc.groups, group), "name_released")
+	if q != group {
+		verif.Ensures(verif.Has(tmgc.groups, q) == verif.Has(tab0, q) && tmgc.groups[q] == tab0[q], "other_groups_untouched")
+	}
+}
+
+//verif:contract (*~/server/group.TCPMuxGroupCtl).Listen
+//verif:props C13 C10
+func verif_TCPMuxGroupCtl_Listen(tmgc *TCPMuxGroupCtl, ctx context.Context, multiplexer, group, groupKey string, routeConfig vhost.RouteConfig) {
+	verif.ResetEvents()
+	l, err := tmgc.Listen(ctx, multiplexer, group, groupKey, routeConfig)
+	const evL = "TCPMuxGroup).HTTPConnectListen"
+	if verif.CalledInIter(evL) {
+		verif.Ensures(err == verif.IterRet[error](evL, 1) && err != errGroupClosed, "result_is_the_groups_never_a_dead_group")
+		verif.Ensures(verif.IterArg[string](evL, 2) == group && verif.IterArg[string](evL, 3) == groupKey && verif.Same(verif.IterArg[vhost.RouteConfig](evL, 4), routeConfig), "passes_request_unchanged")
+	} else {
+		verif.Ensures(err != nil, "unknown_multiplexer_refused")
+	}
+	_ = l
+}
+
+//verif:contract (*~/server/group.TCPMuxGroup).worker
+//verif:props C11 C13 C16
+func verif_TCPMuxGroup_worker(tmg *TCPMuxGroup) {
+	verif.ResetEvents()
+	tmg.worker()
 	if verif.Recovered() {
 		verif.Ensures(verif.CalledWith("net.Conn).Close", 0, verif.Ret[net.Conn]("Listener).Accept", 0)), "failed_handoff_closes_connection")
 	}
